@@ -374,7 +374,7 @@ module Mg = struct
       | ("assignshared" | "removeshared" | "getshared") :: _ :: p :: _ -> ignore (reg_shared (int_of_string p))
       | "dep" :: a :: pals -> ignore (reg_pal (int_of_string a)); Stdlib.List.iter pal_tok pals
       | "chunkfn" :: _ :: _ :: pals -> Stdlib.List.iter pal_tok pals
-      | "mkjob" :: _ :: rest -> Stdlib.List.iter (fun tok -> if tok <> "c" then
+      | ("mkjob" | "jobedit") :: _ :: rest -> Stdlib.List.iter (fun tok -> if tok <> "c" then
             ignore (reg_pal (int_of_string (Stdlib.List.hd (String.split_on_char ':' tok))))) rest
       | _ -> ()) lines;
     let n = !next_cid in
@@ -495,6 +495,17 @@ module Mg = struct
              finish !st (Printf.sprintf "%d req=%s chk=%s" (Array.length !jobs - 1)
                (String.concat "," (Stdlib.List.map (fun ((c, cst), req) -> Printf.sprintf "%d:%d" (int_of_nat c) ((if cst then 1 else 0) lor (if req then 0 else 2))) !reqs))
                (match bits_of_key !chk with [] -> "-" | l -> String.concat "," (Stdlib.List.map string_of_int l)))
+         | "jobedit", j :: rest ->
+             (* the same job object described anew (its remembered version stays) *)
+             let j = int_of_string j in
+             let reqs = Stdlib.List.filter_map (fun tok -> match String.split_on_char ':' tok with
+                     | [p; fl] -> let fl = int_of_string fl in Some ((nat_of_int (reg_pal (int_of_string p)), fl land 1 = 1), fl land 2 = 0)
+                     | _ -> None) rest in
+             let (jb, we) = !jobs.(j) in
+             !jobs.(j) <- ({ jb with j_reqs = reqs }, we);
+             finish !st (Printf.sprintf "%d req=%s chk=%s" j
+               (String.concat "," (Stdlib.List.map (fun ((c, cst), req) -> Printf.sprintf "%d:%d" (int_of_nat c) ((if cst then 1 else 0) lor (if req then 0 else 2))) reqs))
+               (match bits_of_key (int_of_n jb.j_check) with [] -> "-" | l -> String.concat "," (Stdlib.List.map string_of_int l)))
          | "jobdo", rest -> job_do := !job_do @ [rest]; finish !st ""
          | "jobact", [idx; kind; h; p] ->
              job_acts := (((nat_of_int (int_of_string idx), kind = "getmut"), parse_handle h), cid p) :: !job_acts;
@@ -650,6 +661,12 @@ module MgS = struct
                      | [p; fl] -> if int_of_string fl land 2 = 0 then req := reg_pal (int_of_string p) :: !req
                      | _ -> ())) rest;
              sjobs := !sjobs @ [(!req, !haschk)]; dump !st
+         | "jobedit", j :: rest ->
+             let req = Stdlib.List.filter_map (fun tok -> match String.split_on_char ':' tok with
+                     | [p; fl] -> if int_of_string fl land 2 = 0 then Some (reg_pal (int_of_string p)) else None
+                     | _ -> None) rest in
+             let j = int_of_string j in
+             sjobs := Stdlib.List.mapi (fun i (r, h) -> if i = j then (req, h) else (r, h)) !sjobs; dump !st
          | "jobdo", rest -> sjob_do := !sjob_do @ [rest]; dump !st
          | "runjob", j :: _ when !sjob_do <> [] ->
              (* the callback's structural calls happen iff the run visits at least one entity: for a job without version filter,
